@@ -671,3 +671,82 @@ Qed.
 Theorem multi_range_refuted_zero_first :
   mres_eqb (mbinned ex_law [0; 200] 10 10 [0; 600]) (MVal [0; 60]) = true /\ binned ex_law 200 10 10 600 = Err.
 Proof. split; vm_compute; reflexivity. Qed.
+
+(* ------------------------------------------------------------------ per-point signs
+   generalisation of [multi_equals_single]: the loads need not be one common multiple of the maxima; it suffices
+   that |L_i| / Lmax_i is the same ratio r at every point (points scaled by negative factors keep their own sign) *)
+Section MultiAbs.
+  Variable v : Q -> Q.
+  Variable n : positive.
+  Variable m : nat.
+  Hypothesis Hm : (1 <= m)%nat.
+  Variable r : Q.
+
+  Lemma abs_range Lm L : 0 < Lm -> Qabs L == r * Lm ->
+    (Qabs L <= edge Lm n m <-> r <= inject_Z (Z.of_nat m) / inject_Z (Zpos n)).
+  Proof.
+    intros H E. rewrite E. unfold edge.
+    set (t := inject_Z (Z.of_nat m) / inject_Z (Z.pos n)). split; intro; nra.
+  Qed.
+
+  Lemma abs_kcls Lm L : 0 < Lm -> Qabs L == r * Lm -> kcls Lm n (Qabs L) = kcls 1 n r.
+  Proof.
+    intros H E. unfold kcls. f_equal. f_equal. apply Qceiling_comp. rewrite E. field. lra.
+  Qed.
+
+  Lemma abs_singles Lms Ls :
+    Forall (fun Lm => 0 < Lm) Lms -> Forall2 (fun Lm L => Qabs L == r * Lm) Lms Ls ->
+    r <= inject_Z (Z.of_nat m) / inject_Z (Zpos n) ->
+    Forall2 (fun p q => binned v (fst p) n m (snd p) = Val q) (combine Lms Ls)
+      (map (fun p => qsgn (fst p) * v (edge (snd p) n (kcls 1 n r))) (combine Ls Lms)).
+  Proof.
+    intros Hpos HF Hin. induction HF as [|Lm L Lms Ls E HF IH]; simpl; constructor.
+    - simpl. inversion Hpos; subst. rewrite lookup_is_upper_edge; auto.
+      + now rewrite (abs_kcls Lm L).
+      + now apply abs_range.
+    - apply IH. now inversion Hpos.
+  Qed.
+
+  Lemma abs_singles_err Lms Ls :
+    Forall (fun Lm => 0 < Lm) Lms -> Forall2 (fun Lm L => Qabs L == r * Lm) Lms Ls ->
+    inject_Z (Z.of_nat m) / inject_Z (Zpos n) < r ->
+    Forall (fun p => binned v (fst p) n m (snd p) = Err) (combine Lms Ls).
+  Proof.
+    intros Hpos HF Hout. induction HF as [|Lm L Lms Ls E HF IH]; simpl; constructor.
+    - simpl. inversion Hpos; subst. apply out_of_range_errors; auto.
+      apply Qnot_le_lt. intro C. apply (abs_range Lm L) in C; auto. lra.
+    - apply IH. now inversion Hpos.
+  Qed.
+End MultiAbs.
+
+Theorem multi_equals_single_abs v Lmaxs n m r Ls :
+  Lmaxs <> [] -> Forall (fun Lm => 0 < Lm) Lmaxs -> (1 <= m)%nat ->
+  Forall2 (fun Lm L => Qabs L == r * Lm) Lmaxs Ls ->
+  match mbinned v Lmaxs n m Ls with
+  | MVal qs => Forall2 (fun p q => binned v (fst p) n m (snd p) = Val q) (combine Lmaxs Ls) qs
+  | MErr => Forall (fun p => binned v (fst p) n m (snd p) = Err) (combine Lmaxs Ls)
+  end.
+Proof.
+  intros Hne Hpos Hm HF.
+  unfold mbinned, mlookup_rows. rewrite (first_point_edges v Lmaxs n m Hne Hpos Hm).
+  pose proof (hd_pos Lmaxs Hne Hpos) as H0.
+  assert (E0 : Qabs (hd 0 Ls) == r * hd 0 Lmaxs).
+  { destruct HF; [congruence|]. assumption. }
+  assert (Hlen : length Ls = length Lmaxs) by (clear - HF; induction HF; simpl; congruence).
+  set (L0 := hd 0 Lmaxs) in *.
+  destruct (Qlt_le_dec (inject_Z (Z.of_nat m) / inject_Z (Zpos n)) r) as [Hout|Hin].
+  - assert (edge L0 n m < Qabs (hd 0 Ls)).
+    { apply Qnot_le_lt. intro C. apply (abs_range n m r L0 _ H0 E0) in C. lra. }
+    rewrite (ss_edges_above L0 n m _ H0 H).
+    destruct (Nat.ltb_spec m (m + 1)); [|lia].
+    now apply (abs_singles_err v n m r).
+  - assert (Qabs (hd 0 Ls) <= edge L0 n m) by (now apply (abs_range n m r L0 _ H0 E0)).
+    rewrite (ss_edges L0 n m _ H0 Hm H).
+    pose proof (kcls_in_range L0 n m _ H0 Hm H). pose proof (kcls_ge1 L0 n (Qabs (hd 0 Ls))).
+    destruct (Nat.ltb_spec m (kcls L0 n (Qabs (hd 0 Ls)) - 1 + 1)); [lia|].
+    rewrite class_rows_mtable by lia.
+    replace (S (kcls L0 n (Qabs (hd 0 Ls)) - 1)) with (kcls L0 n (Qabs (hd 0 Ls))) by lia.
+    rewrite signed_row by auto.
+    rewrite (abs_kcls n r L0 _ H0 E0).
+    now apply (abs_singles v n m Hm r).
+Qed.
